@@ -35,8 +35,11 @@ def impl(case):
 
 def make_case(rng, i, tier):
     R = rng.choice(["Float", "Float", "Boolean"])
-    force = "lc_unary_cycle" if rng.random() < 0.12 else None
-    desc, shape = gen.gen_cfg(rng, shape=force, maxrules=(2 if force else 5) if tier == "quick" else 7, convergent=False, nnt=1 if force else rng.choice([1, 2, 2, 3]))
+    u = rng.random()
+    # (nullable_run: a token behind a RUN of nullable nonterminals at the front of a body of length ≥ 3 — binarisation folds the
+    #  run into a fresh nonterminal that must be nullable too)
+    force = "lc_unary_cycle" if u < 0.12 else "nullable_run" if u < 0.24 else None
+    desc, shape = gen.gen_cfg(rng, shape=force, maxrules=(2 if force == "lc_unary_cycle" else 5) if tier == "quick" else 7, convergent=False, nnt=1 if force else rng.choice([1, 2, 2, 3]))
     if R == "Boolean":
         desc = gen.to_bool(desc)
     elif rng.random() < 0.15:  # a rule with non-positive weight is dropped by the Boolean mapping
